@@ -119,6 +119,38 @@ class Report:
         print(line, flush=True)
         return True
 
+    # -- parallel parts
+    def merge(self, part):
+        """Fold in what a SubReport collected in a worker process (dict from SubReport.export())."""
+        self.obligations += part['obligations']
+        self.discharged += part['discharged']
+        for k, v in part['by_backend'].items():
+            self.by_backend[k] += v
+        for k, v in part['solver_s'].items():
+            self.solver_s[k] += v
+        for k, v in part['functions']:
+            self.functions[k] = self.functions.get(k, 0) + v
+        self.undecided.extend(part['undecided'])
+        self.downgraded.extend(part['downgraded'])
+        self.errors.extend(part['errors'])
+        self.bounded.extend(part['bounded'])
+        self.notes.extend(part['notes'])
+        for a in part['assumptions']:
+            self.assume(a)
+        for t in part['trusted']:
+            self.trust(t)
+        for smp in part['samples']:
+            self.sample(smp)
+        for k, v in part['vacuity'].items():
+            self.vacuity[k] = self.vacuity.get(k, 0) + v
+        for k, v in part['extra'].items():
+            if isinstance(v, dict):
+                self.extra.setdefault(k, {}).update(v)
+            else:
+                self.extra[k] = v
+        for key, what, replay, no_input in part['violations']:
+            self.violation(key, what, replay, no_input)
+
     # -- output
     def write(self):
         os.makedirs(EVIDENCE_DIR, exist_ok=True)
@@ -183,3 +215,22 @@ class Report:
             print('UNDECIDED: %d obligations (first: %s)' % (len(self.undecided), self.undecided[0]), flush=True)
             return 2
         return 0
+
+
+class SubReport(Report):
+    """Report used inside a worker process: collects, never prints or writes; the parent merges export()."""
+
+    def __init__(self, prop, tier='quick'):
+        Report.__init__(self, prop, tier, 'other', '')
+        self.pending = []
+
+    def violation(self, key, what, replay=None, no_input=False):
+        self.pending.append((key, what, replay, no_input))
+        return True
+
+    def export(self):
+        return {'obligations': self.obligations, 'discharged': self.discharged, 'by_backend': dict(self.by_backend),
+                'solver_s': dict(self.solver_s), 'functions': list(self.functions.items()), 'undecided': self.undecided,
+                'downgraded': self.downgraded, 'errors': self.errors, 'bounded': self.bounded, 'notes': self.notes,
+                'assumptions': self.assumptions, 'trusted': self.trusted, 'samples': self.samples, 'vacuity': self.vacuity,
+                'extra': self.extra, 'violations': json.loads(json.dumps(self.pending, default=str))}
